@@ -124,6 +124,12 @@ func (s *sched) slowNote(e *fakenet.Envelope, now time.Time) {
 			s.slowStart[k] = now
 		}
 	}
+	if kind == "share" {
+		k := [2]int{from, ord}
+		if _, ok := s.shareSent[k]; !ok {
+			s.shareSent[k] = now // the node finished that validator's DKG and starts collecting announcements
+		}
+	}
 	s.mu.Unlock()
 }
 
@@ -191,6 +197,9 @@ func (s *sched) deadlineCheck(v int, ref time.Time) (bool, string) {
 				}
 				startLo = ev.lastStart
 			}
+			if ref.IsZero() {
+				ref = startLo
+			}
 			for _, c := range []struct {
 				kind   string
 				phases time.Duration
@@ -244,6 +253,39 @@ func (s *sched) slowGuard(v int) slowReport {
 	rep.GuardOK, rep.Why = s.deadlineCheck(v, yStart)
 
 	return rep
+}
+
+// annPlan is the "late announcement" case class: after the kyber DKG of validator K completed on
+// every node, exactly one val_pubkey_share announcement (peer C -> node B) is kept back beyond B's
+// collect timeout (6 x PhaseDuration after B started collecting, i.e. after B's own announcement of
+// validator K left) and delivered afterwards. Nothing else is delayed, lost or duplicated. On the
+// unchanged tree B fails loudly ("timed out waiting for DKG messages from peers"): no verdict.
+type annPlan struct {
+	C int           `json:"announcing_peer_C"`
+	B int           `json:"receiver_B"`
+	K int           `json:"validator_K"`
+	P time.Duration `json:"phase_ns"`
+}
+
+const annPhase = time.Second
+
+func (s *sched) annRelease(e *fakenet.Envelope) (time.Time, bool) {
+	p := s.ann
+	if slowKind(s.class(e)) != "share" || s.idx[e.From] != p.C || s.idx[e.To] != p.B {
+		return time.Time{}, false
+	}
+	s.mu.Lock()
+	ord, ok := s.slowOrd[e]
+	bStart, bOK := s.shareSent[[2]int{p.B, p.K}]
+	s.mu.Unlock()
+	if !ok || ord != p.K {
+		return time.Time{}, false
+	}
+	if !bOK {
+		return time.Now().Add(time.Hour), true // B has not finished that DKG yet
+	}
+
+	return bStart.Add(6*p.P + 500*time.Millisecond), true
 }
 
 // latePlan is the deliberate late-bundle case class: the deal bundle of dealer D for validator K is
